@@ -315,6 +315,17 @@ def lockedGraph (E : Ecu) (locked : Sess → Sess → Bool) : Ecu :=
 def withPending {σ} (O : Oracle σ) (pend : σ → Wire → Nat) : Oracle σ :=
   { O with step := fun s i w => ((O.step s i w).1, { (O.step s i w).2 with pend := pend s w }) }
 
+/-- an ECU on which a session change (or any other positive answer) that is announced with ResponsePending frames takes
+    its time: `gap s w` ms of silence between the last pending frame and the positive reply.  The pending loop of
+    `request_unsafe` reads with a 0.5 s timeout and gives up after `PENDING_GIVEUP_MS` (40 reads) of consecutive silence: a
+    reply that comes before that is received like one that comes at once; from then on the transmission counts as
+    unanswered after a ResponsePending (`slow`). -/
+def withSlowPending {σ} (O : Oracle σ) (pend : σ → Wire → Nat) (gap : σ → Wire → Nat) : Oracle σ :=
+  { O with step := fun s i w =>
+      ((O.step s i w).1,
+        if pend s w ≠ 0 ∧ (O.step s i w).2.fin = .pos ∧ PENDING_GIVEUP_MS ≤ gap s w then { pend := pend s w, fin := .silent }
+        else { (O.step s i w).2 with pend := pend s w }) }
+
 /-- an ECU with sporadic faults: a script of faults (`some a`: answer `a` - nothing, busyRepeatRequest, or a reply the
     client refuses - instead of handling the request; `none`: handle it) consumed one entry per request; after the script
     every request is handled.  A faulted request does not reach the application (state unchanged) - except
